@@ -40,7 +40,7 @@ def main():
             patches.append(a)
     if props is None:
         props = sorted(os.path.basename(f)[:-3].upper() for f in glob.glob(V + '/fxlint/rules/c[0-9][0-9].py'))
-    with ThreadPoolExecutor(8) as ex:
+    with ThreadPoolExecutor(int(os.environ.get("JOBS", "8"))) as ex:
         for patch, res in ex.map(lambda p: run_patch(p, props), patches):
             if 'apply' in res:
                 print(patch, res['apply']); continue
